@@ -46,9 +46,9 @@ GPOS_TYPES = ["spos", "pair", "cursive", "markbase", "marklig", "markmark", "cpo
 ANYSUBST = ("single", "multiple", "ligature")
 
 # Findings on the unchanged library that are excluded by construction (with counters); set to False to see them.
-EXCLUDE_F1 = True  # inline contextual ligature rules sharing one ligature lookup (sequence prefix of another)
-EXCLUDE_F3 = True  # Builder.set_script early return: script statement ignored when languagesystems == {(script, dflt)}
-EXCLUDE_F4 = True  # `sub a' from [...]` without context is compiled as a plain (non-contextual) alternate lookup
+EXCLUDE_F1 = False  # inline contextual ligature rules sharing one ligature lookup (sequence prefix of another)
+EXCLUDE_F3 = False  # Builder.set_script early return: script statement ignored when languagesystems == {(script, dflt)}
+EXCLUDE_F4 = False  # `sub a' from [...]` without context is compiled as a plain (non-contextual) alternate lookup
 EXCLUDE_F2 = False  # (repaired in /repo by a fix: commit; kept as a switch) asFea of `ignore pos a' b';` (several marked glyphs, no context) loses the marks
 
 _skeleton = None
